@@ -11,7 +11,8 @@ import "verifharness/tl"
 // -race (a report becomes a "VIOL race" line); every family runs in a process of its own (a crash becomes a
 // "VIOL crash" line).
 func main() {
-	tl.Main("C14", []tl.Family{{Name: "panics", Run: panics}, {Name: "pending", Run: pending}, {Name: "stress", Run: stress}})
+	tl.Main("C14", []tl.Family{{Name: "panics", Run: panics}, {Name: "pending", Run: pending}, {Name: "stress", Run: stress},
+		{Name: "panicnil1", Run: panicnil1, Env: []string{"GODEBUG=panicnil=1"}}})
 }
 
 func reps(en *tl.Engine, quick, thorough int) int {
@@ -26,6 +27,8 @@ func panics(en *tl.Engine) {
 		for _, c := range tl.Configs() {
 			n, q := c[0], c[1]
 			en.PanicSequence(n, q)
+			en.NilTasks(n, q, 1)
+			en.PanicNil(n, q)
 			en.TaskKinds(n, q, 2)
 			en.PanicStorm(n, q, true, 2)
 			en.PanicStorm(n, q, false, 6)
@@ -69,5 +72,18 @@ func stress(en *tl.Engine) {
 	for i := 0; i < big; i++ {
 		n, q := 1+en.Rng.Intn(4), en.Rng.Intn(4)
 		en.Stress(n, q, tl.StressOpt{Big: true, PanicPct: 30, Observers: 3, CancelMode: 0, Kinds: true}, i)
+	}
+}
+
+// panic scenarios in a process running with GODEBUG=panicnil=1 (panic(nil) makes recover() return nil: for the
+// lane such a task returned, LastPanic is untouched)
+func panicnil1(en *tl.Engine) {
+	for _, c := range tl.Configs() {
+		en.PanicNil(c[0], c[1])
+		en.PanicSequence(c[0], c[1])
+	}
+	for i := 0; i < 60; i++ {
+		n, q := 1+en.Rng.Intn(2), en.Rng.Intn(3)
+		en.Stress(n, q, tl.StressOpt{PanicPct: 50, Observers: 1, CancelMode: 0, Kinds: true}, i)
 	}
 }
